@@ -319,6 +319,7 @@ pub struct FrontendCtx<'a, R: FileManager> {
 
     pub type_application_stack: Vec<(String, Runtype)>,
     typeof_value_stack: Vec<ModuleItemAddress>,
+    typeof_expr_stack: Vec<(BffFileName, Span)>,
     jsdoc_cache_by_file: BTreeMap<BffFileName, JsdocFileCache>,
 }
 
@@ -1135,6 +1136,7 @@ impl<'a, R: FileManager> FrontendCtx<'a, R> {
 
             type_application_stack: vec![],
             typeof_value_stack: vec![],
+            typeof_expr_stack: vec![],
             recursive_generic_uuids: BTreeSet::new(),
             jsdoc_cache_by_file: BTreeMap::new(),
         }
@@ -2292,6 +2294,22 @@ impl<'a, R: FileManager> FrontendCtx<'a, R> {
     }
 
     pub fn typeof_expr(&mut self, e: &Expr, as_const: bool, file: BffFileName) -> Res<Runtype> {
+        // `const a = a.x;` / `const a = b; const b = a;`: an initializer whose type needs its own type has none
+        let key = (file.clone(), e.span());
+        if !e.span().is_dummy() && self.typeof_expr_stack.contains(&key) {
+            let anchor = Anchor {
+                f: file.clone(),
+                s: e.span(),
+            };
+            return self.error(&anchor, DiagnosticInfoMessage::TypeofValueReferencesItself);
+        }
+        self.typeof_expr_stack.push(key);
+        let res = self.typeof_expr_inner(e, as_const, file);
+        self.typeof_expr_stack.pop();
+        res
+    }
+
+    fn typeof_expr_inner(&mut self, e: &Expr, as_const: bool, file: BffFileName) -> Res<Runtype> {
         let anchor = Anchor {
             f: file.clone(),
             s: e.span(),
